@@ -1,7 +1,7 @@
 //! C04 — ignore files mean what git says they mean. E1 with git itself as the
 //! oracle: for every ignore-file content over a token grammar (single lines,
 //! pairs of lines, root + nested file) the set of files the REAL walker
-//! yields on a fixed 152-file tree is compared with
+//! yields on a fixed 156-file tree is compared with
 //! `git ls-files -o --exclude-standard`.
 
 use std::{
@@ -38,6 +38,11 @@ fn tree_files() -> Vec<String> {
                 out.push(format!("{}/{}/{}", d, e, n));
             }
         }
+    }
+    // names that end in a blank or contain a backslash (for escaped and
+    // unescaped trailing blanks)
+    for n in ["a ", "a\\", "a\\ ", "b  "] {
+        out.push(n.to_string());
     }
     // a deeper branch (files at depth 4) for patterns with several literal
     // components
@@ -225,7 +230,7 @@ pub fn run(args: &Args) -> ! {
         cases.push(Case { root: format!("{}\n", l), nested: None, icase: true });
     }
     for l in shorts.iter() {
-        for suffix in [" ", "  ", "\\ ", " #", "\t"] {
+        for suffix in [" ", "  ", "\\ ", " #", "\t", "\\  ", "\\\\ ", "\\ \\ ", " \\ ", "\\\\\\ "] {
             cases.push(Case { root: format!("{}{}\n", l, suffix), nested: None, icase: false });
         }
         cases.push(Case { root: format!("# c\n\n{}\n", l), nested: None, icase: false });
@@ -305,7 +310,7 @@ pub fn run(args: &Args) -> ! {
                     };
                     let got = repo.walker_files(c.icase);
                     acc.cases += 1;
-                    if want.len() < 152 {
+                    if want.len() < 156 {
                         acc.nontrivial += 1;
                     }
                     if got != want {
@@ -388,11 +393,11 @@ pub fn run(args: &Args) -> ! {
     ev.set("exhaustive", true);
     ev.set("ignore_file_contents", ncases);
     ev.set("skipped_degenerate_or_rejected_by_git", total.skipped_degenerate);
-    ev.set("tree_files", 152);
+    ev.set("tree_files", 156);
     ev.set(
         "rule",
         format!(
-            "tree: 152 files over names {{ab,a.b,.a,a-b,a*,[a],a?,c,a,b,A,a.}} in directories {{.,a,b,a.,A}} x {{.,a,b}} plus d/{{a,b}}/{{a,b}}/{{a,b}}. Ignore-file contents: every single line that is a token string of length <= {} over {:?}; ordered pairs of lines (length <= 2 each{}); a root line with a nested a/.gitignore line; case-insensitive variants; trailing blanks, escaped blanks, comments; every ordered pair (with each negation pattern) and ignore / re-include / ignore triples over the 12 lines **/x/y and **/x/y/z with x,y,z in {{a,b}} (several multi-component literal suffixes in one file); nine `dir/*` rules each followed by nine re-includes of something further down. Oracle: git {} (`git ls-files -o --exclude-standard`) in a scratch repository per shard. Observation: the set of files the real ignore::Walk yields with only .gitignore active. Lines containing '//' or a backslash before '/' are skipped (no specification). distinct_nontrivial = contents for which git ignores at least one file.",
+            "tree: 156 files (four of them with names ending in a blank or containing a backslash) over names {{ab,a.b,.a,a-b,a*,[a],a?,c,a,b,A,a.}} in directories {{.,a,b,a.,A}} x {{.,a,b}} plus d/{{a,b}}/{{a,b}}/{{a,b}}. Ignore-file contents: every single line that is a token string of length <= {} over {:?}; ordered pairs of lines (length <= 2 each{}); a root line with a nested a/.gitignore line; case-insensitive variants; trailing blanks, escaped blanks, comments; every ordered pair (with each negation pattern) and ignore / re-include / ignore triples over the 12 lines **/x/y and **/x/y/z with x,y,z in {{a,b}} (several multi-component literal suffixes in one file); nine `dir/*` rules each followed by nine re-includes of something further down. Oracle: git {} (`git ls-files -o --exclude-standard`) in a scratch repository per shard. Observation: the set of files the real ignore::Walk yields with only .gitignore active. Lines containing '//' or a backslash before '/' are skipped (no specification). distinct_nontrivial = contents for which git ignores at least one file.",
             tier.pick(4, 5), TOKENS, if tier == Tier::Quick { ", every 2nd line" } else { "" },
             String::from_utf8_lossy(&Command::new("git").arg("--version").output().map(|o| o.stdout).unwrap_or_default()).trim()
         ),
